@@ -146,9 +146,10 @@ def run(ctx):
             if nz:
                 ctx.ok("C15-R2", "the store is on the h != 0 path only (h == 0 returns before any store)", cm.loc_of(st["span"]))
             else:
-                # without the early return, h = 0 must still be the identity up to the clamp: accepted
-                # only if the form check passed (old + 0*HT clamped): note it
-                ctx.note("no h == 0 early return: identity for h = 0 then relies on the clamp being the identity on in-range means")
+                # without the h == 0 exit the clamp runs for h = 0 too, and clamp(old, MIN_LF0, MAX_LF0)
+                # is not the identity: a stored mean outside [ln 20, ln 20000] (an untrained pdf, a
+                # very low voice) is rewritten although no shift was asked for
+                ctx.fail("C15-R2", b.path, "h == 0 not the identity", "the store is not restricted to h != 0 (no dominating `additional_half_tone == 0.0` exit): with h = 0 every mean is still passed through clamp(MIN_LF0, MAX_LF0), which changes means outside that range", cm.loc_of(st["span"]))
         for cbb, t, cname, k, ref in mut_arg_calls(b, eb):
             r, ch = root_of(ref)
             if r[0] == "arg" and r[1] == 1 and not any(s in cname for s in ("into_iter", "iter_mut", "IterMut", "index_mut", "deref_mut", "Iterator>::next")):
